@@ -136,6 +136,6 @@ def run_subprocess(tool, args, stdin_text=None, cwd=None, hashseed='0', timeout=
         env.update(extra_env)
     code = "import sys; sys.argv[0]={!r}; from {} import main; main()".format(tool, TOOLS[tool])
     p = subprocess.run([sys.executable] + (['-O'] if sys.flags.optimize else []) + ['-c', code] + [str(a) for a in args],
-                       input=(stdin_text if stdin_text is not None else ''), text=True,
+                       input=(stdin_text if stdin_text is not None else ''), encoding='utf-8', errors='replace',
                        stdout=subprocess.PIPE, stderr=subprocess.PIPE, cwd=cwd or repo, env=env, timeout=timeout)
     return Result(p.returncode & 0xFF, p.stdout, p.stderr, None)
